@@ -5,7 +5,7 @@ E2 with exactly one deviation: every single non-canonical rewrite of every DER e
 from mc.checks import codec_matrix as CM
 from mc.checks import stream_corpus as SC
 from mc.core import explore as X
-from mc.core.runner import Result, pyasn1_site, exc_text
+from mc.core.runner import guarded, InternalError, Result, pyasn1_site, exc_text
 from mc.model import x690 as M
 from mc.model import universe as U
 from mc.bind import pyasn1_bind as B
@@ -87,9 +87,9 @@ def check_case(idx, sl, T, v, R):
         try:
             back = M.read(T, data)
         except M.ReadError as e:
-            raise RuntimeError('reference reader rejects reference form %s: %s' % (data.hex(), e))
+            raise InternalError('reference reader rejects reference form %s: %s' % (data.hex(), e))
         if not M.values_equal(T, back, v):
-            raise RuntimeError('reference forms disagree on %s' % data.hex())
+            raise InternalError('reference forms disagree on %s' % data.hex())
         decs = ('der', 'cer') if kind == 'true' else ('der',)
         for decname in decs:
             for use_spec in (True, False):
@@ -131,7 +131,7 @@ def shard(tier, i, n, seed):
     for idx, sl, T, v in cases(tier):
         if (idx + seed) % n != i:
             continue
-        check_case(idx, sl, T, v, R)
+        guarded(R, lambda: check_case(idx, sl, T, v, R), {'slice': sl, 'T': T, 'v': v}, CM.type_features(T), idx)
         R.features['slice:' + sl] += 1
         if idx % 499 == seed % 499:
             R.sample({'T': M.show_type(T), 'v': v})
